@@ -500,6 +500,20 @@ def check_api(ctx, tier):
                     ctx.violation(Finding('R-API', rp, q, api.stmt_of(node), 'ndarray.%s was removed from numpy: this %s raises for every input' % (mth, 'writer' if part == 'Write.py' else 'reader')))
                 if not miss and not rem:
                     ctx.ok('R-API', '%s:%s' % (fmt, q), 'src/PseudoNetCDF/%s %s' % (rp, q), 'numpy names resolve; no removed ndarray method')
+                if part == 'Write.py':
+                    from .. import lints
+                    al = lints.alias_inplace(fn)
+                    for st, a, orig, later in al:
+                        ctx.violation(Finding('R-INPLACEALIAS', rp, q, st, '%s shares storage with %s (no copy) and is updated in place; %s is still used afterwards (%s), so the '
+                                              'begin/source values written to the file change too' % (a, orig, orig, norm(later)[:50])))
+                    if not al:
+                        ctx.ok('R-INPLACEALIAS', '%s:%s' % (fmt, q), 'src/PseudoNetCDF/%s %s' % (rp, q), 'no in-place update through an alias of a live array')
+                    rv = lints.reinterpret_input(fn, [a.arg for a in fn.args.args[:1]])
+                    for call, recv in rv:
+                        ctx.violation(Finding('R-CONVERT', rp, q, api.stmt_of(call), '%s still has the dtype of the caller\'s data and is reinterpreted with %s instead of converted (astype): '
+                                              'native or double-precision input is written byte-swapped or with doubled record length' % (recv, norm(call)[-20:])))
+                    if not rv:
+                        ctx.ok('R-CONVERT', '%s:%s' % (fmt, q), 'src/PseudoNetCDF/%s %s' % (rp, q), 'input data reach the file through astype, never through a dtype view')
     ctx.floor('writer/reader functions under R-API', n, 30)
 
 
@@ -559,6 +573,8 @@ def run(ctx):
                  ('R-BEPAIR', 'begin/end header fields and roll-over statements pair slots consistently'),
                  ('R-EDGECELLS', 'edge -> cell-count table agrees between boundary writer and reader'),
                  ('R-VARORDER', 'cloud/rain variable order agrees between writer and reader'),
+                 ('R-INPLACEALIAS', 'writers never update in place an array that aliases one still to be written'),
+                 ('R-CONVERT', 'writers convert input data with astype, never reinterpret it with a dtype view'),
                  ('R-API', 'writers and readers use only numpy APIs that exist')):
         ctx.rule(r, d)
     nb = 0
